@@ -117,6 +117,9 @@ def run(ctx):
                            dict(replay, expected="the model's labels and abstract state", observed=d, check="conformance"))
         # -- the property's monitor
         problems, wcont = H.monitor(w, reference)
+        for fd in w.socks:
+            if sum(1 for e in w.sched.events if e[1] == "hclose" and e[2] == fd and e[0] == "io") >= 2:
+                stats["double_handle_close_on_io"] = stats.get("double_handle_close_on_io", 0) + 1
         labels = tuple(sorted(set(p[0] for p in problems)))
         teardown = any(e[1] in ("hclose", "close") for e in w.sched.events)
         if pls or teardown:
@@ -360,6 +363,7 @@ def run(ctx):
         "schedule_kinds": stats["sched_kinds"],
         "scenarios": stats["scenarios"],
         "verdicts": stats["verdicts"],
+        "runs_with_handle_close_entered_twice_on_io_thread": stats.get("double_handle_close_on_io", 0),
         "runs_in_f18_class": stats["in_f18_class"],
         "runs_in_f17_class": stats["in_f17_class"],
         "f18_loop_death_observed_on_real_code": loop_died_real,
